@@ -1,12 +1,18 @@
 ------------------------------- MODULE Typing -------------------------------
 (***************************************************************************)
 (* Type-directed generator for property C09: every expression is derived   *)
-(* against a chosen monomorphic goal type, so the type of every binder is  *)
-(* known by construction (Gleam's typing rules read goal-first).           *)
+(* against a chosen goal type, so the type of every binder is known by     *)
+(* construction (Gleam's typing rules read goal-first).                    *)
 (*                                                                         *)
-(* Types are written in Gleam's display syntax (strings), over the         *)
-(* universe  D0 = {Int, Float, String, Bool, Nil, T}  and                  *)
-(* D1 = D0 + List(s), #(s, t), Result(s, t), Box(s), fn(s) -> t  (s,t:D0). *)
+(* Types are written in Gleam's display syntax (strings).  Atoms:          *)
+(*   D0 = {Int, Float, String, Bool, Nil, T, M}  and type variables        *)
+(*   AV = {a, b} (names an annotation may use),  UV = {u1..u4} (the type   *)
+(*   of an unannotated parameter that nothing constrains: its own variable)*)
+(* one constructor deep: List(s), #(s, t), Result(s, t), Box(s),           *)
+(* fn(s) -> t  (s, t atoms).  `Parts` decomposes a type string again.      *)
+(* Variable names are the specification's own: the displayed type names    *)
+(* variables in order of first occurrence, so both sides are compared after*)
+(* renaming variables by first occurrence (fn(a, b) and fn(a, a) differ).  *)
 (*                                                                         *)
 (* The module under test consists of a fixed prelude (text in the harness) *)
 (*   type T { T(a: Int, b: String) }      type Box(x) { Box(inner: x) }    *)
@@ -16,39 +22,89 @@
 (*   type M { M(Int, key: String, value: Float) }   (unlabelled + labelled) *)
 (*   fn wrap(item) { item }   fn item() { wrap(1) }   (a parameter spelled  *)
 (*   like a top-level function that calls back: wrap must stay generic)     *)
-(* and of generated functions g1..gn whose signatures (parameter types,    *)
-(* result type) are chosen up front, so calls may refer forwards,          *)
-(* backwards and to themselves (recursion groups); return types are never  *)
-(* annotated - they must be inferred.                                      *)
+(* (PreludeSigs: what hovering these functions must show) and of generated *)
+(* functions g1..gn whose signatures are chosen up front, so calls may     *)
+(* refer forwards, backwards and to themselves (recursion groups).         *)
+(*                                                                         *)
+(* A signature is a list of up to four parameters, each one of             *)
+(*   ann  - annotated with a monomorphic type or with a type variable,     *)
+(*   free - unannotated and unconstrained: generic in its own variable,    *)
+(*   pin  - unannotated; its type is fixed by one use as an operand of an  *)
+(*          operator (`let _ = p + 1`, `let _ = 1.5 >=. p`, `let _ = !p`), *)
+(* the last nl of them labelled, and a result type over the parameters'    *)
+(* variables (annotated when it can be named, else inferred).  Top-level   *)
+(* functions are generalised: every call from a later function             *)
+(* instantiates the variables afresh (Match / Insts), and the binder of    *)
+(* `let v = g1(1, "s")` has the instantiated result type.  Inside a        *)
+(* generic function its variables are rigid atoms: only rules that are     *)
+(* parametric in a type can be used at them.                               *)
+(*                                                                         *)
+(* Operators (Gleam's rules): Int + - * / % -> Int, Int < > <= >= -> Bool, *)
+(* Float +. -. *. /. -> Float, Float <. >. <=. >=. -> Bool, Bool && || ->  *)
+(* Bool, == != on any one type -> Bool, String <> -> String, prefix !Bool  *)
+(* -> Bool, prefix -Int -> Int.  Each is an expression production at its   *)
+(* result type and a pin (operand on the left and on the right).           *)
 (*                                                                         *)
 (* out: tokens; a binder token carries the type Gleam assigns it (ty),     *)
 (* a function name token carries its full signature.                       *)
 (***************************************************************************)
 EXTENDS Naturals, Sequences, FiniteSets, TLC, Json
 
-CONSTANTS Budget, NFuns, Sim, Masked
+CONSTANTS Budget, NFuns, Sim, Masked,
+          Focus,       \* if not empty: the only productions the budget may be spent on
+          Mode,        \* exhaustive mode only: "rules" (every rule once) or "sigs" (every signature once)
+          MaxParams,   \* "sigs": longest parameter list
+          Rounds       \* simulation: programs per behaviour
 
 D0 == {"Int", "Float", "String", "Bool", "Nil", "T", "M"}
+AV == {"a", "b"}
+UV == {"u1", "u2", "u3", "u4"}
+GV == AV \cup UV
+DG0 == D0 \cup GV
 L(s)     == "List(" \o s \o ")"
 Tu(s, t) == "#(" \o s \o ", " \o t \o ")"
 R(s, t)  == "Result(" \o s \o ", " \o t \o ")"
 Bx(s)    == "Box(" \o s \o ")"
 F1(s, t) == "fn(" \o s \o ") -> " \o t
-PinTypes == {"Int", "Float", "String"}     \* types an unannotated parameter can be pinned to by one use
-Lists == {L(s) : s \in D0}
-Tups  == {Tu(s, t) : s \in D0, t \in D0}
-Ress  == {R(s, t) : s \in D0, t \in D0}
-Boxes == {Bx(s) : s \in D0}
 Funs  == {F1(s, t) : s \in D0, t \in D0}
-D1 == D0 \cup Lists \cup Tups \cup Ress \cup Boxes \cup Funs
+Over(S) == S \cup {L(s) : s \in S} \cup {Tu(s, t) : s \in S, t \in S} \cup {R(s, t) : s \in S, t \in S}
+             \cup {Bx(s) : s \in S} \cup {F1(s, t) : s \in S, t \in S}
+D1  == Over(D0)        \* the monomorphic universe
+D1G == Over(DG0)       \* with type variables
 
-\* decomposition of a type of D1
-ElemOf(ty) == CHOOSE s \in D0 : ty = L(s) \/ ty = Bx(s)
-FstOf(ty)  == CHOOSE s \in D0 : \E t \in D0 : ty = Tu(s, t) \/ ty = R(s, t) \/ ty = F1(s, t)
-SndOf(ty)  == CHOOSE t \in D0 : \E s \in D0 : ty = Tu(s, t) \/ ty = R(s, t) \/ ty = F1(s, t)
+\* decomposition of a type of D1G: <<constructor, first component, second component>>
+PartsSet == {<<s, <<"atom", s, "">>>> : s \in DG0} \cup {<<L(s), <<"List", s, "">>>> : s \in DG0} \cup {<<Bx(s), <<"Box", s, "">>>> : s \in DG0}
+            \cup {<<Tu(s, t), <<"Tuple", s, t>>>> : s \in DG0, t \in DG0} \cup {<<R(s, t), <<"Result", s, t>>>> : s \in DG0, t \in DG0}
+            \cup {<<F1(s, t), <<"Fn", s, t>>>> : s \in DG0, t \in DG0}
+Parts == [ty \in D1G |-> (CHOOSE p \in PartsSet : p[1] = ty)[2]]
+Con(ty) == Parts[ty][1]
+X(ty)   == Parts[ty][2]
+Y(ty)   == Parts[ty][3]
+TyVars(ty) == {Parts[ty][2], Parts[ty][3]} \cap GV
 
-VARIABLES todo, out, env, budget, sigs, nv, phase, cur     \* cur: index of the function whose body is being generated
-vars == <<todo, out, env, budget, sigs, nv, phase, cur>>
+\* substitution of atoms for variables (s: a function on GV; "?" = not bound)
+Sub0(s, x) == IF x \in GV /\ s[x] # "?" THEN s[x] ELSE x
+Subst(s, ty) == LET p == Parts[ty] IN
+                CASE p[1] = "atom"   -> Sub0(s, ty)
+                  [] p[1] = "List"   -> L(Sub0(s, p[2]))
+                  [] p[1] = "Box"    -> Bx(Sub0(s, p[2]))
+                  [] p[1] = "Tuple"  -> Tu(Sub0(s, p[2]), Sub0(s, p[3]))
+                  [] p[1] = "Result" -> R(Sub0(s, p[2]), Sub0(s, p[3]))
+                  [] p[1] = "Fn"     -> F1(Sub0(s, p[2]), Sub0(s, p[3]))
+NoSub == [v \in GV |-> "?"]
+\* the substitutions extending s under which the scheme component pat becomes val (none or one)
+Bind(s, pat, val) == IF pat \in GV THEN (IF s[pat] = "?" THEN {[s EXCEPT ![pat] = val]} ELSE IF s[pat] = val THEN {s} ELSE {})
+                     ELSE IF pat = val THEN {s} ELSE {}
+\* instantiations of the scheme r that give the type ty: a variable alone matches every type, otherwise componentwise
+Match(r, ty) == LET pr == Parts[r]  pt == Parts[ty] IN
+                IF pr[1] = "atom" THEN Bind(NoSub, r, ty)
+                ELSE IF pr[1] # pt[1] THEN {}
+                ELSE UNION {Bind(s1, pr[3], pt[3]) : s1 \in Bind(NoSub, pr[2], pt[2])}
+
+VARIABLES todo, out, env, budget, sigs, nv, phase, cur,    \* cur: index of the function whose body is being generated
+          round,                                             \* simulation: programs finished in this behaviour
+          fw                                                 \* functions from which a later function can be reached
+vars == <<todo, out, env, budget, sigs, nv, phase, cur, round, fw>>
 
 Sym(s, x, n) == [s |-> s, x |-> x, n |-> n]
 T(x)    == Sym("T", x, 0)
@@ -57,9 +113,75 @@ EX(ty)  == Sym("EXPR", ty, 0)          \* an expression of type ty
 PA(ty)  == Sym("PAT", ty, 0)           \* a pattern matching values of type ty
 BIND(ty) == Sym("BIND", ty, 0)         \* a fresh variable binder of type ty
 GR(ty)  == Sym("GROUP", ty, 0)         \* an operand: `{ e }` (Gleam groups with braces), so precedence never regroups it
-P(c, p, r) == [c |-> c, p |-> p, r |-> r]
+MARK    == Sym("MARK", "", 0)
+POPMARK == Sym("POPMARK", "", 0)
+COMMIT  == Sym("COMMIT", "", 0)
+P(c, p, r) == [c |-> c, p |-> p, r |-> r, k |-> 0]
+PK(c, p, r, k) == [c |-> c, p |-> p, r |-> r, k |-> k]   \* a call to generated function k
+Tok(t, r, ty) == [t |-> t, r |-> r, ty |-> ty]
 
 Pick(S) == IF Sim /\ S # {} THEN {RandomElement(S)} ELSE S
+
+Letter(i) == <<"a", "b", "c", "d">>[i]
+RECURSIVE Join(_, _)
+Join(ss, sep) == IF Len(ss) = 0 THEN "" ELSE IF Len(ss) = 1 THEN ss[1] ELSE ss[1] \o sep \o Join(Tail(ss), sep)
+RECURSIVE Flat(_, _)     \* token sequences joined by the separator tokens sep
+Flat(seqs, sep) == IF Len(seqs) = 0 THEN <<>> ELSE IF Len(seqs) = 1 THEN seqs[1] ELSE seqs[1] \o sep \o Flat(Tail(seqs), sep)
+RECURSIVE SetToSeq(_)
+SetToSeq(S) == IF S = {} THEN <<>> ELSE LET x == CHOOSE x \in S : TRUE IN <<x>> \o SetToSeq(S \ {x})
+PermsOf(S) == {f \in [1..Cardinality(S) -> S] : \A i, j \in 1..Cardinality(S) : i # j => f[i] # f[j]}
+
+-----------------------------------------------------------------------------
+\* Operators and pins
+IntArith   == {"+", "-", "*", "/", "%"}
+IntCmp     == {"<", ">", "<=", ">="}
+FloatArith == {"+.", "-.", "*.", "/."}
+FloatCmp   == {"<.", ">.", "<=.", ">=."}
+BoolOps    == {"&&", "||"}
+EqOps      == {"==", "!="}
+Sides      == {"l", "r"}
+\* a closed expression of each type that has one without a choice: the other operand of a pin
+LitTypes == D0 \cup {L("Int"), Tu("Int", "String"), Bx("Int")}
+Lit(ty) == CASE ty = "Int" -> <<T("1")>> [] ty = "Float" -> <<T("1.5")>> [] ty = "String" -> <<T("\"s\"")>> [] ty = "Bool" -> <<T("True")>>
+             [] ty = "Nil" -> <<T("Nil")>> [] ty = "T" -> <<T("T"), T("("), T("1"), T(","), T("\"s\""), T(")")>>
+             [] ty = "M" -> <<T("M"), T("("), T("1"), T(","), T("key"), T(":"), T("\"s\""), T(","), T("value"), T(":"), T("1.5"), T(")")>>
+             [] ty = L("Int") -> <<T("["), T("1"), T("]")>>
+             [] ty = Tu("Int", "String") -> <<T("#"), T("("), T("1"), T(","), T("\"s\""), T(")")>>
+             [] ty = Bx("Int") -> <<T("Box"), T("("), T("1"), T(")")>>
+\* a pin <<operator, side of the pinned variable ("u": the operand of a prefix operator)>> fixes the variable's type to ty
+PinTypes == LitTypes
+PinsFor(ty) == (CASE ty = "Int"    -> ((IntArith \cup IntCmp) \X Sides) \cup {<<"-", "u">>}
+                  [] ty = "Float"  -> (FloatArith \cup FloatCmp) \X Sides
+                  [] ty = "String" -> {"<>"} \X Sides
+                  [] ty = "Bool"   -> (BoolOps \X Sides) \cup {<<"!", "u">>}
+                  [] OTHER -> {})
+               \cup (EqOps \X Sides)
+\* the production an operator belongs to (expression rule and pin alike): what Masked names
+OpProd(op, side) == IF op \in BoolOps THEN "bool_op" ELSE IF op = "!=" THEN "neq" ELSE IF op = "!" THEN "not"
+                    ELSE IF op = "-" /\ side = "u" THEN "neg" ELSE "op"
+Pins(ty) == {p \in PinsFor(ty) : OpProd(p[1], p[2]) \notin Masked}
+CanonPin(ty) == CASE ty = "Int" -> <<"+", "l">> [] ty = "Float" -> <<"+.", "l">> [] ty = "String" -> <<"<>", "l">> [] OTHER -> <<"==", "l">>
+NoPin == <<"", "">>
+PinStmt(ty, v, pin) == <<T("let"), T("_"), T("=")>>
+                       \o (IF pin[2] = "l" THEN <<T(v), T(pin[1])>> \o Lit(ty) ELSE IF pin[2] = "r" THEN Lit(ty) \o <<T(pin[1]), T(v)>> ELSE <<T(pin[1]), T(v)>>)
+
+-----------------------------------------------------------------------------
+\* Signatures: [ps: parameter types, kd: [k: "ann" | "free" | "pin", pin], nl: number of trailing labelled parameters,
+\*              ret: result type, rann: result annotated]
+Kd(k, pin) == [k |-> k, pin |-> pin]
+Sig(ps, kd, nl, ret, rann) == [ps |-> ps, kd |-> kd, nl |-> nl, ret |-> ret, rann |-> rann]
+SigVars(sg) == {sg.ps[i] : i \in 1..Len(sg.ps)} \cap GV
+CanAnnotate(ty) == TyVars(ty) \cap UV = {}          \* an unannotated parameter's variable has no name in the source
+SigText(ss, k) == "fn g" \o ToString(k) \o "(" \o Join(ss[k].ps, ", ") \o ") -> " \o ss[k].ret
+PName(k, i) == "p" \o ToString(k) \o Letter(i)
+LName(i) == "l" \o Letter(i)
+
+\* the prelude's functions and what hovering them shows
+PreludeSigs == << [name |-> "id", sig |-> "fn id(a) -> a"], [name |-> "apply", sig |-> "fn apply(a, fn(a) -> b) -> b"],
+                  [name |-> "map", sig |-> "fn map(List(a), fn(a) -> b) -> List(b)"], [name |-> "add", sig |-> "fn add(Int, Int) -> Int"],
+                  [name |-> "mk_ok", sig |-> "fn mk_ok(a, b) -> Result(a, b)"], [name |-> "mk_err", sig |-> "fn mk_err(a, b) -> Result(a, b)"],
+                  [name |-> "wrap", sig |-> "fn wrap(a) -> a"], [name |-> "item", sig |-> "fn item() -> Int"] >>
+ASSUME PrintT(<<"PRELUDE", ToJson(PreludeSigs)>>)
 
 \* environment: sequence of frames, each a set of <<name, type>>; a mark frame delimits a block
 Mark == [m |-> TRUE, b |-> {}]
@@ -67,60 +189,97 @@ VarsOf(ty) == UNION {{e[1] : e \in {x \in env[i].b : x[2] = ty}} : i \in 1..Len(
 RECURSIVE PopToMark(_)
 PopToMark(fs) == IF fs = <<>> THEN <<>> ELSE IF fs[Len(fs)].m THEN SubSeq(fs, 1, Len(fs) - 1) ELSE PopToMark(SubSeq(fs, 1, Len(fs) - 1))
 
-\* generated functions whose result type is ty (index set)
-FunsReturning(ty) == {k \in 1..Len(sigs) : sigs[k].ret = ty}
-SigText(k) == "fn g" \o ToString(k) \o "("
-              \o (IF Len(sigs[k].ps) = 0 THEN "" ELSE IF Len(sigs[k].ps) = 1 THEN sigs[k].ps[1] ELSE sigs[k].ps[1] \o ", " \o sigs[k].ps[2])
-              \o ") -> " \o sigs[k].ret
+\* atoms available in the function being generated: the monomorphic ones and its own (rigid) variables
+U0 == D0 \cup (IF cur = 0 THEN {} ELSE SigVars(sigs[cur]))
+\* types a `let` or a `case` subject is taken from (every shape but functions)
+ValueTypes == UNION {{s, L(s), Bx(s)} \cup {Tu(s, t) : t \in Pick(U0)} \cup {R(s, t) : t \in Pick(U0)} : s \in Pick(U0)}
 
-Block(ty) == <<T("{"), Sym("MARK", "", 0), EX(ty), Sym("POPMARK", "", 0), T("}")>>
-
-\* arguments of a call to generated function k
-Args(k) == IF Len(sigs[k].ps) = 0 THEN <<>>
-           ELSE IF Len(sigs[k].ps) = 1 THEN <<EX(sigs[k].ps[1])>>
-           ELSE <<EX(sigs[k].ps[1]), T(","), EX(sigs[k].ps[2])>>
 \* Signature help (beyond the listed properties): with the cursor right after the `(` of a call, or right after the
-\* n-th comma of its argument list, the editor shows the callee's type `(P1, P2) -> R` and marks parameter n (0-based)
-\* as active.  CALLOPEN / ARGSEP are the `(` and `,` tokens of such a call, tagged with what must be shown there.
-CallSig(ps, ret) == "(" \o (IF Len(ps) = 0 THEN "" ELSE IF Len(ps) = 1 THEN ps[1] ELSE ps[1] \o ", " \o ps[2]) \o ") -> " \o ret
-CallTo(name, ps, ret) ==
-    <<T(name), Sym("CALLOPEN", CallSig(ps, ret), 0)>>
-    \o (IF Len(ps) = 0 THEN <<>> ELSE IF Len(ps) = 1 THEN <<EX(ps[1])>> ELSE <<EX(ps[1]), Sym("ARGSEP", CallSig(ps, ret), 1), EX(ps[2])>>)
-    \o <<T(")")>>
+\* n-th comma of its argument list, the editor shows the callee's type at this call `(P1, P2) -> R` and marks parameter
+\* n (0-based) as active.  CALLOPEN / ARGSEP are the `(` and `,` tokens of such a call, tagged with what must be shown.
+\* (labelled parameters are shown with their label: `(Int, lb: String) -> R`)
+CallSig(ps, nl, ret) == "(" \o Join([i \in 1..Len(ps) |-> IF i > Len(ps) - nl THEN LName(i) \o ": " \o ps[i] ELSE ps[i]], ", ") \o ") -> " \o ret
+RECURSIVE SepArgs(_, _, _)
+SepArgs(items, i, cs) == IF i > Len(items) THEN <<>>
+                         ELSE (IF i = 1 THEN <<>> ELSE IF cs = "" THEN <<T(",")>> ELSE <<Sym("ARGSEP", cs, i - 1)>>) \o items[i] \o SepArgs(items, i + 1, cs)
+\* an argument: an expression of the parameter's type (lit: the closed one without a choice)
+Arg(ty, lit) == IF lit THEN Lit(ty) ELSE <<EX(ty)>>
+\* positional call
+CallArgs(name, ps, nl, ret, lit) == <<T(name), Sym("CALLOPEN", CallSig(ps, nl, ret), 0)>> \o SepArgs([i \in 1..Len(ps) |-> Arg(ps[i], lit)], 1, CallSig(ps, nl, ret)) \o <<T(")")>>
+CallTo(name, ps, nl, ret) == CallArgs(name, ps, nl, ret, FALSE)
+CallPlain(name, ps) == <<T(name), T("(")>> \o SepArgs([i \in 1..Len(ps) |-> <<EX(ps[i])>>], 1, "") \o <<T(")")>>
+\* the unlabelled parameters by position, then the labelled ones by label in the order perm (of their indices)
+CallLabelled(name, ps, nl, perm, lit) ==
+    LET np == Len(ps) - nl
+        order == [i \in 1..Len(ps) |-> IF i <= np THEN i ELSE perm[i - np]]
+    IN <<T(name), T("(")>> \o SepArgs([i \in 1..Len(ps) |-> IF i <= np THEN Arg(ps[order[i]], lit) ELSE <<T(LName(order[i])), T(":")>> \o Arg(ps[order[i]], lit)], 1, "") \o <<T(")")>>
+LabelIdx(sg) == (Len(sg.ps) - sg.nl + 1)..Len(sg.ps)
+IdPerm(sg) == [i \in 1..sg.nl |-> Len(sg.ps) - sg.nl + i]
+
+\* instantiations of generated function k whose result is ty; variables the result does not determine range over `free`
+Fills(dom, free) == IF Sim THEN {[v \in dom |-> RandomElement(free)]} ELSE [dom -> free]
+Extend(s, f) == [v \in GV |-> IF v \in DOMAIN f THEN f[v] ELSE s[v]]
+Insts(k, ty, free) == LET sv == SigVars(sigs[k]) IN
+    UNION {{Extend(s, f) : f \in Fills({v \in sv : s[v] = "?"}, free)} : s \in Match(sigs[k].ret, ty)}
+InstPs(k, s) == [i \in 1..Len(sigs[k].ps) |-> Sub0(s, sigs[k].ps[i])]
+FreeInst == IF Sim THEN U0 ELSE {"Int", "String"}
+Generic(k) == SigVars(sigs[k]) # {}
+\* A generic function must be generalised before its callers are inferred, so it must not lie on a cycle with them:
+\* it calls no later function, and no earlier one from which a later function can be reached (fw).
+RecCallable(ty) == {j \in cur..Len(sigs) : cur > 0 /\ sigs[j].ret = ty /\ (j = cur \/ (~Generic(j) /\ ~Generic(cur)))}
+Callable == IF cur > 0 /\ Generic(cur) THEN (1..(cur - 1)) \ fw ELSE 1..(cur - 1)
 
 Prods(h) ==
   IF h.s \in {"EXPR", "EXPRP"} THEN
-    LET ty == h.x IN
+    LET ty == h.x  atom == h.x \in DG0  c == Con(h.x)  x == X(h.x)  y == Y(h.x)  next == "v" \o ToString(nv + 1) IN
     \* rules available at every type (not for EXPRP: the body of a function with an inferred result type starts
     \* with a rule whose result type is fixed by the rule itself, otherwise a body consisting of recursive
     \* calls only would legitimately be inferred as a type variable)
-    (IF h.s = "EXPRP" THEN {} ELSE
-    { P(1, "let_in", <<T("{"), Sym("MARK", "", 0), T("let"), BIND(s), T("="), EX(s), Sym("COMMIT", "", 0), EX(ty), Sym("POPMARK", "", 0), T("}")>>) : s \in Pick(D0) }
-    \cup { P(1, "case", <<T("case"), EX(s), T("{"), Sym("MARK", "", 0), PA(s), Sym("COMMIT", "", 0), T("->"), EX(ty), Sym("POPMARK", "", 0),
-                          T("_"), T("->"), EX(ty), T("}")>>) : s \in Pick(D1 \ Funs) }
+    (IF h.s = "EXPRP" \/ budget < 1 THEN {} ELSE
+    { P(1, "let_in", <<T("{"), MARK, T("let"), BIND(s), T("="), EX(s), COMMIT, EX(ty), POPMARK, T("}")>>) : s \in Pick(ValueTypes) }
+    \cup { P(1, "case", <<T("case"), EX(s), T("{"), MARK, PA(s), COMMIT, T("->"), EX(ty), POPMARK, T("_"), T("->"), EX(ty), T("}")>>) : s \in Pick(ValueTypes) }
     \cup { P(1, "id_call", <<T("id"), T("("), EX(ty), T(")")>>), P(1, "wrap_call", <<T("wrap"), T("("), EX(ty), T(")")>>) }
-    \* calls to generated functions: to earlier ones (acyclic), and to itself / later ones (recursion groups)
-    \cup { P(1, "call_gen_back", CallTo("g" \o ToString(k), sigs[k].ps, sigs[k].ret)) : k \in {j \in FunsReturning(ty) : j < cur} }
-    \cup { P(1, "call_gen_rec", <<T("g" \o ToString(k)), T("(")>> \o Args(k) \o <<T(")")>>) : k \in {j \in FunsReturning(ty) : j >= cur} }
-    \cup (IF ty \in D0 THEN
-            { P(1, "tuple_index0", <<GR(Tu(ty, s)), T("."), T("0")>>) : s \in Pick(D0) }
-            \cup { P(1, "tuple_index1", <<GR(Tu(s, ty)), T("."), T("1")>>) : s \in Pick(D0) }
+    \* calls to earlier generated functions (generalised by then): each call instantiates the callee's variables afresh
+    \cup UNION {{ PK(1, "call_gen_back", CallTo("g" \o ToString(k), InstPs(k, s), sigs[k].nl, ty), k) : s \in Insts(k, ty, FreeInst) } : k \in Callable}
+    \cup UNION {UNION {{ PK(1, "call_gen_labels", CallLabelled("g" \o ToString(k), InstPs(k, s), sigs[k].nl, perm, FALSE), k) : perm \in Pick(PermsOf(LabelIdx(sigs[k]))) }
+                       : s \in Insts(k, ty, FreeInst)} : k \in {j \in Callable : sigs[j].nl > 0}}
+    \* the binder of a let takes the instantiated result type of the call
+    \cup UNION {{ PK(1, "let_call", <<T("{"), MARK, T("let"), BIND(Subst(Extend(NoSub, f), sigs[k].ret)), T("=")>>
+                                    \o CallTo("g" \o ToString(k), InstPs(k, Extend(NoSub, f)), sigs[k].nl, Subst(Extend(NoSub, f), sigs[k].ret))
+                                    \o <<COMMIT, EX(ty), POPMARK, T("}")>>, k) : f \in Fills(SigVars(sigs[k]), FreeInst)} : k \in Pick({j \in Callable : Generic(j)})}
+    \* calls to itself and to later functions (recursion groups: the callee is not generalised yet, so only monomorphic
+    \* ones, and a generic function at its own variables); to a function with labelled parameters: positionally and
+    \* with the labels in any order
+    \cup { PK(1, "call_gen_rec", CallPlain("g" \o ToString(k), sigs[k].ps), k) : k \in {j \in RecCallable(ty) : sigs[j].nl = 0} }
+    \cup { PK(1, "call_rec_labels", CallPlain("g" \o ToString(k), sigs[k].ps), k) : k \in {j \in RecCallable(ty) : sigs[j].nl > 0} }
+    \cup UNION {{ PK(1, "call_rec_labels", CallLabelled("g" \o ToString(k), sigs[k].ps, sigs[k].nl, perm, FALSE), k) : perm \in Pick(PermsOf(LabelIdx(sigs[k]))) }
+                : k \in {j \in RecCallable(ty) : sigs[j].nl > 0}}
+    \cup (IF atom THEN
+            { P(1, "tuple_index0", <<GR(Tu(ty, s)), T("."), T("0")>>) : s \in Pick(U0) }
+            \cup { P(1, "tuple_index1", <<GR(Tu(s, ty)), T("."), T("1")>>) : s \in Pick(U0) }
             \cup { P(1, "box_field", <<GR(Bx(ty)), T("."), T("inner")>>) }
             \* the argument that fixes the lambda parameter's type comes first (arguments are checked left to right; a field
             \* access on a parameter whose type is not known yet is an error in Gleam itself)
-            \cup { P(1, "apply_lambda", <<T("apply"), T("("), EX(s), T(","), T("fn"), T("("), Sym("MARK", "", 0), BIND(s), Sym("COMMIT", "", 0), T(")")>>
-                                        \o <<T("{"), EX(ty), T("}"), Sym("POPMARK", "", 0), T(")")>>) : s \in Pick(D0) }
+            \cup { P(1, "apply_lambda", <<T("apply"), T("("), EX(s), T(","), T("fn"), T("("), MARK, BIND(s), COMMIT, T(")")>>
+                                        \o <<T("{"), EX(ty), T("}"), POPMARK, T(")")>>) : s \in Pick(U0) }
             \cup { P(1, "pipe_id", <<GR(ty), T("|>"), T("id")>>) }
           ELSE {}))
     \* rules by goal type
-    \cup (CASE ty = "Int" -> { P(0, "int", <<T("1")>>), P(1, "add", <<GR("Int"), T("+"), GR("Int")>>), P(1, "field_a", <<GR("T"), T("."), T("a")>>),
-                                P(1, "add_fn", CallTo("add", <<"Int", "Int">>, "Int")),
-                                P(1, "pipe_add", <<GR("Int"), T("|>"), T("add"), T("("), EX("Int"), T(")")>>) }
-            [] ty = "Float" -> { P(0, "float", <<T("1.5")>>), P(1, "fmul", <<GR("Float"), T("*."), GR("Float")>>) }
+    \cup (CASE ty = "Int" -> { P(0, "int", <<T("1")>>), P(1, "field_a", <<GR("T"), T("."), T("a")>>),
+                                P(1, "add_fn", CallTo("add", <<"Int", "Int">>, 0, "Int")),
+                                P(1, "pipe_add", <<GR("Int"), T("|>"), T("add"), T("("), EX("Int"), T(")")>>),
+                                \* a prefix operator is written inside its own group: after another expression a `-` would continue it
+                                P(1, "neg", <<T("{"), T("-"), GR("Int"), T("}")>>) }
+                              \cup { P(1, "int_op", <<GR("Int"), T(op), GR("Int")>>) : op \in Pick(IntArith) }
+            [] ty = "Float" -> { P(0, "float", <<T("1.5")>>) } \cup { P(1, "float_op", <<GR("Float"), T(op), GR("Float")>>) : op \in Pick(FloatArith) }
             [] ty = "String" -> { P(0, "string", <<T("\"s\"")>>), P(1, "concat", <<GR("String"), T("<>"), GR("String")>>), P(1, "field_b", <<GR("T"), T("."), T("b")>>),
                                   P(1, "field_key", <<GR("M"), T("."), T("key")>>) }
-            [] ty = "Bool" -> { P(0, "true", <<T("True")>>), P(1, "less", <<GR("Int"), T("<"), GR("Int")>>), P(1, "fless", <<GR("Float"), T("<."), GR("Float")>>) }
-                              \cup { P(1, "equal", <<GR(s), T("=="), GR(s)>>) : s \in Pick(D0) }
+            [] ty = "Bool" -> { P(0, "true", <<T("True")>>), P(1, "not", <<T("{"), T("!"), GR("Bool"), T("}")>>) }
+                              \cup { P(1, "int_cmp", <<GR("Int"), T(op), GR("Int")>>) : op \in Pick(IntCmp) }
+                              \cup { P(1, "float_cmp", <<GR("Float"), T(op), GR("Float")>>) : op \in Pick(FloatCmp) }
+                              \cup { P(1, "bool_op", <<GR("Bool"), T(op), GR("Bool")>>) : op \in Pick(BoolOps) }
+                              \cup { P(1, "equal", <<GR(s), T("=="), GR(s)>>) : s \in Pick(U0) }
+                              \cup { P(1, "neq", <<GR(s), T("!="), GR(s)>>) : s \in Pick(U0) }
             [] ty = "Nil" -> { P(0, "nil", <<T("Nil")>>) }
             [] ty = "T" -> { P(0, "ctor_T", <<T("T"), T("("), EX("Int"), T(","), EX("String"), T(")")>>),
                              P(1, "ctor_T_labels", <<T("T"), T("("), T("b"), T(":"), EX("String"), T(","), T("a"), T(":"), EX("Int"), T(")")>>) }
@@ -128,138 +287,223 @@ Prods(h) ==
             \* component is pinned: lists always have an element, results are built by the prelude's mk_ok / mk_err
             [] ty = "M" -> { P(0, "ctor_M", <<T("M"), T("("), EX("Int"), T(","), T("key"), T(":"), EX("String"), T(","), T("value"), T(":"), EX("Float"), T(")")>>),
                              P(1, "ctor_M_swapped", <<T("M"), T("("), EX("Int"), T(","), T("value"), T(":"), EX("Float"), T(","), T("key"), T(":"), EX("String"), T(")")>>) }
-            [] ty \in Lists -> { P(0, "list_one", <<T("["), EX(ElemOf(ty)), T("]")>>),
-                                 P(1, "list_spread", <<T("["), EX(ElemOf(ty)), T(","), T(".."), EX(ty), T("]")>>) }
-                               \cup { P(1, "map_lambda", <<T("map"), T("("), EX(L(s)), T(","), T("fn"), T("("), Sym("MARK", "", 0), BIND(s), Sym("COMMIT", "", 0), T(")")>>
-                                                         \o <<T("{"), EX(ElemOf(ty)), T("}"), Sym("POPMARK", "", 0), T(")")>>) : s \in Pick(D0) }
-            [] ty \in Tups -> { P(0, "tuple", <<T("#"), T("("), EX(FstOf(ty)), T(","), EX(SndOf(ty)), T(")")>>) }
-            [] ty \in Ress -> { P(0, "mk_ok", <<T("mk_ok"), T("("), EX(FstOf(ty)), T(","), EX(SndOf(ty)), T(")")>>),
-                                P(0, "mk_err", <<T("mk_err"), T("("), EX(FstOf(ty)), T(","), EX(SndOf(ty)), T(")")>>) }
-            [] ty \in Boxes -> { P(0, "box", <<T("Box"), T("("), EX(ElemOf(ty)), T(")")>>),
-                                 P(1, "box_label", <<T("Box"), T("("), T("inner"), T(":"), EX(ElemOf(ty)), T(")")>>) }
-            [] ty \in Funs -> (IF FstOf(ty) \in PinTypes
-                               THEN { P(0, "lambda_pinned", <<T("fn"), T("("), Sym("MARK", "", 0), BIND(FstOf(ty)), Sym("COMMIT", "", 0), T(")"), T("{"), Sym("PINLAST", FstOf(ty), 0)>>
-                                                          \o <<EX(SndOf(ty)), T("}"), Sym("POPMARK", "", 0)>>) }
-                               ELSE {})
-                              \cup { P(0, "lambda_annot", <<T("fn"), T("("), Sym("MARK", "", 0), BIND(FstOf(ty)), T(":"), TY(FstOf(ty)), Sym("COMMIT", "", 0), T(")")>>
-                                                    \o <<T("{"), EX(SndOf(ty)), T("}"), Sym("POPMARK", "", 0)>>) }
-                              \cup (IF ty = F1("Int", "Int") THEN { P(1, "capture", <<T("add"), T("("), T("_"), T(","), EX("Int"), T(")")>>) } ELSE {}))
+            [] c = "List" -> { P(0, "list_one", <<T("["), EX(x), T("]")>>),
+                               P(1, "list_spread", <<T("["), EX(x), T(","), T(".."), EX(ty), T("]")>>) }
+                             \cup { P(1, "map_lambda", <<T("map"), T("("), EX(L(s)), T(","), T("fn"), T("("), MARK, BIND(s), COMMIT, T(")")>>
+                                                       \o <<T("{"), EX(x), T("}"), POPMARK, T(")")>>) : s \in Pick(U0) }
+            [] c = "Tuple" -> { P(0, "tuple", <<T("#"), T("("), EX(x), T(","), EX(y), T(")")>>) }
+            [] c = "Result" -> { P(0, "mk_ok", <<T("mk_ok"), T("("), EX(x), T(","), EX(y), T(")")>>),
+                                 P(0, "mk_err", <<T("mk_err"), T("("), EX(x), T(","), EX(y), T(")")>>) }
+            [] c = "Box" -> { P(0, "box", <<T("Box"), T("("), EX(x), T(")")>>),
+                              P(1, "box_label", <<T("Box"), T("("), T("inner"), T(":"), EX(x), T(")")>>) }
+            \* a lambda parameter is not annotated: its type is fixed by a pin in the body (the canonical one, or any operator)
+            [] c = "Fn" -> (IF x \in PinTypes
+                            THEN { P(0, "lambda_pinned", <<T("fn"), T("("), MARK, BIND(x), COMMIT, T(")"), T("{")>> \o PinStmt(x, next, CanonPin(x))
+                                                         \o <<EX(y), T("}"), POPMARK>>) }
+                                 \cup { P(1, "lambda_pin_op", <<T("fn"), T("("), MARK, BIND(x), COMMIT, T(")"), T("{")>> \o PinStmt(x, next, pin)
+                                                         \o <<EX(y), T("}"), POPMARK>>) : pin \in Pick(Pins(x)) }
+                            ELSE {})
+                           \cup (IF CanAnnotate(x) THEN { P(0, "lambda_annot", <<T("fn"), T("("), MARK, BIND(x), T(":"), TY(x), COMMIT, T(")")>>
+                                                                              \o <<T("{"), EX(y), T("}"), POPMARK>>) } ELSE {})
+                           \cup (IF ty = F1("Int", "Int") THEN { P(1, "capture", <<T("add"), T("("), T("_"), T(","), EX("Int"), T(")")>>) } ELSE {})
+            [] OTHER -> {})
   ELSE IF h.s = "PAT" THEN
-    LET ty == h.x IN
+    \* (the pattern under an `as` is paid for by the `as`)
+    LET ty == h.x  c == Con(h.x)  x == X(h.x)  y == Y(h.x)  pc == IF h.n = 1 THEN 0 ELSE 1 IN
     (IF h.n = 0 THEN { P(0, "p_var", <<BIND(ty)>>), P(1, "p_discard", <<T("_")>>) } ELSE {})
-    \cup (CASE ty \in Lists -> { P(1, "p_list", <<T("["), BIND(ElemOf(ty)), T(","), T(".."), BIND(ty), T("]")>>), P(1, "p_list1", <<T("["), PA(ElemOf(ty)), T("]")>>) }
-            [] ty \in Tups -> { P(1, "p_tuple", <<T("#"), T("("), PA(FstOf(ty)), T(","), PA(SndOf(ty)), T(")")>>) }
-            [] ty \in Ress -> { P(1, "p_ok", <<T("Ok"), T("("), PA(FstOf(ty)), T(")")>>), P(1, "p_error", <<T("Error"), T("("), PA(SndOf(ty)), T(")")>>) }
-            [] ty \in Boxes -> { P(1, "p_box", <<T("Box"), T("("), PA(ElemOf(ty)), T(")")>>), P(1, "p_box_label", <<T("Box"), T("("), T("inner"), T(":"), PA(ElemOf(ty)), T(")")>>) }
-            [] ty = "T" -> { P(1, "p_T", <<T("T"), T("("), T("a"), T(":"), PA("Int"), T(","), T("b"), T(":"), PA("String"), T(")")>>),
-                             P(1, "p_T_spread", <<T("T"), T("("), PA("Int"), T(","), T(".."), T(")")>>) }
-            [] ty = "M" -> { P(1, "p_M_positional", <<T("M"), T("("), PA("Int"), T(","), PA("String"), T(","), PA("Float"), T(")")>>),
-                             P(1, "p_M_mixed", <<T("M"), T("("), PA("Int"), T(","), T("value"), T(":"), PA("Float"), T(","), T("key"), T(":"), PA("String"), T(")")>>),
-                             P(1, "p_M_partial", <<T("M"), T("("), PA("Int"), T(","), PA("String"), T(","), T(".."), T(")")>>) }
-            [] ty = "String" -> { P(1, "p_prefix", <<T("\"s\""), T("<>"), BIND("String")>>), P(1, "p_string", <<T("\"s\"")>>) }
-            [] ty = "Int" -> { P(1, "p_int", <<T("1")>>) }
-            [] ty = "Bool" -> { P(1, "p_true", <<T("True")>>) }
+    \cup (CASE c = "List" -> { P(pc, "p_list", <<T("["), BIND(x), T(","), T(".."), BIND(ty), T("]")>>), P(pc, "p_list1", <<T("["), PA(x), T("]")>>) }
+            [] c = "Tuple" -> { P(pc, "p_tuple", <<T("#"), T("("), PA(x), T(","), PA(y), T(")")>>) }
+            [] c = "Result" -> { P(pc, "p_ok", <<T("Ok"), T("("), PA(x), T(")")>>), P(pc, "p_error", <<T("Error"), T("("), PA(y), T(")")>>) }
+            [] c = "Box" -> { P(pc, "p_box", <<T("Box"), T("("), PA(x), T(")")>>), P(pc, "p_box_label", <<T("Box"), T("("), T("inner"), T(":"), PA(x), T(")")>>) }
+            [] ty = "T" -> { P(pc, "p_T", <<T("T"), T("("), T("a"), T(":"), PA("Int"), T(","), T("b"), T(":"), PA("String"), T(")")>>),
+                             P(pc, "p_T_spread", <<T("T"), T("("), PA("Int"), T(","), T(".."), T(")")>>) }
+            [] ty = "M" -> { P(pc, "p_M_positional", <<T("M"), T("("), PA("Int"), T(","), PA("String"), T(","), PA("Float"), T(")")>>),
+                             P(pc, "p_M_mixed", <<T("M"), T("("), PA("Int"), T(","), T("value"), T(":"), PA("Float"), T(","), T("key"), T(":"), PA("String"), T(")")>>),
+                             P(pc, "p_M_partial", <<T("M"), T("("), PA("Int"), T(","), PA("String"), T(","), T(".."), T(")")>>) }
+            [] ty = "String" -> { P(pc, "p_prefix", <<T("\"s\""), T("<>"), BIND("String")>>), P(pc, "p_string", <<T("\"s\"")>>) }
+            [] ty = "Int" -> { P(pc, "p_int", <<T("1")>>) }
+            [] ty = "Bool" -> { P(pc, "p_true", <<T("True")>>) }
             [] OTHER -> {})
           \* `x as y` on a plain variable is a recorded parser finding (C04 F13): only structured patterns get `as`
-          \cup (IF h.n = 0 /\ (ty \in Lists \cup Tups \cup Ress \cup Boxes \cup {"T", "M", "String", "Int", "Bool"}) THEN { P(1, "p_as", <<Sym("PAT", ty, 1), T("as"), BIND(ty)>>) } ELSE {})
+          \cup (IF h.n = 0 /\ (c \in {"List", "Tuple", "Result", "Box"} \/ ty \in {"T", "M", "String", "Int", "Bool"}) THEN { P(1, "p_as", <<Sym("PAT", ty, 1), T("as"), BIND(ty)>>) } ELSE {})
   ELSE {}
 
-Init == /\ todo = <<>> /\ out = <<>> /\ env = <<>> /\ budget = Budget /\ sigs = <<>> /\ nv = 0 /\ phase = "header" /\ cur = 0
+-----------------------------------------------------------------------------
+\* Everything but the choice of a production is deterministic: Run carries a configuration to the next choice point.
+\* fn gk(la p: s, ..) -> r { pins body }
+FunToks(ss, k) ==
+    LET sg == ss[k]  n == Len(sg.ps)
+        param(i) == (IF i > n - sg.nl THEN <<T(LName(i))>> ELSE <<>>) \o <<Sym("PARAM", sg.ps[i], 10 * k + i)>>
+                    \o (IF sg.kd[i].k = "ann" THEN <<T(":"), TY(sg.ps[i])>> ELSE <<>>)
+        pins == Flat([i \in 1..n |-> IF sg.kd[i].k = "pin" THEN PinStmt(sg.ps[i], PName(k, i), sg.kd[i].pin) ELSE <<>>], <<>>)
+    IN <<Sym("FUNSTART", "", k), T("fn"), Sym("FUNNAME", "", k), T("("), MARK>> \o Flat([i \in 1..n |-> param(i)], <<T(",")>>) \o <<T(")")>>
+       \o (IF sg.rann THEN <<T("->"), TY(sg.ret)>> ELSE <<>>) \o <<T("{")>> \o pins
+       \o <<Sym(IF sg.rann THEN "EXPR" ELSE "EXPRP", sg.ret, 0), T("}"), POPMARK, Sym("FUNEND", "", k)>>
+\* two instantiations that give distinct variables distinct types, and every variable two types
+Inst1 == [v \in GV |-> CASE v = "a" -> "Int" [] v = "b" -> "String" [] v = "u1" -> "Float" [] v = "u2" -> "Bool" [] v = "u3" -> "T" [] v = "u4" -> "Nil"]
+Inst2 == [v \in GV |-> CASE v = "a" -> "String" [] v = "b" -> "Float" [] v = "u1" -> "Bool" [] v = "u2" -> "T" [] v = "u3" -> "Nil" [] v = "u4" -> "Int"]
+\* fn gk() { let v = g1(..at Inst1) let w = g1(..at Inst2) let x = g1(..labels in every order) Nil }
+CallerToks(ss, k) ==
+    LET sg == ss[1]
+        ps(s) == [i \in 1..Len(sg.ps) |-> Sub0(s, sg.ps[i])]
+        one(s, call) == <<T("let"), BIND(Subst(s, sg.ret)), T("=")>> \o call \o <<COMMIT>>
+        perms == SetToSeq(IF sg.nl = 0 THEN {} ELSE PermsOf(LabelIdx(sg)))
+    IN <<Sym("FUNSTART", "", k), T("fn"), Sym("FUNNAME", "", k), T("("), T(")"), T("{"), MARK>>
+       \o one(Inst1, CallArgs("g1", ps(Inst1), sg.nl, Subst(Inst1, sg.ret), TRUE)) \o one(Inst2, CallArgs("g1", ps(Inst2), sg.nl, Subst(Inst2, sg.ret), TRUE))
+       \o Flat([j \in 1..Len(perms) |-> one(Inst1, CallLabelled("g1", ps(Inst1), sg.nl, perms[j], TRUE))], <<>>)
+       \o <<T("Nil"), T("}"), POPMARK, Sym("FUNEND", "", k)>>
 
-\* signatures first: parameter types (annotated ones from ParamTypes, an unannotated first parameter pinned by a
-\* use), result type (inferred when it is a D0 type, annotated otherwise).  BFS mode: one parameterless function.
+Choice == {"EXPR", "EXPRP", "PAT"}
+Plain == {"T", "CALLOPEN", "ARGSEP", "TY"}           \* symbols that are just written out
+TokOf(h) == CASE h.s = "T" -> Tok(h.x, "tok", "") [] h.s = "CALLOPEN" -> Tok("(", "callopen", h.x)
+              [] h.s = "ARGSEP" -> Tok(",", "argsep" \o ToString(h.n), h.x) [] h.s = "TY" -> Tok(h.x, "type", "")
+RECURSIVE PlainLen(_, _)
+PlainLen(td, i) == IF i <= Len(td) /\ td[i].s \in Plain THEN PlainLen(td, i + 1) ELSE i - 1
+Det(st) ==
+    LET h == st.todo[1]  rest == Tail(st.todo) IN
+    CASE h.s \in Plain -> LET k == PlainLen(st.todo, 1) IN
+                          [st EXCEPT !.out = @ \o [i \in 1..k |-> TokOf(st.todo[i])], !.todo = SubSeq(@, k + 1, Len(@))]
+      [] h.s = "FUN" -> [st EXCEPT !.todo = FunToks(st.sigs, h.n) \o rest]
+      [] h.s = "CALLER" -> [st EXCEPT !.todo = CallerToks(st.sigs, h.n) \o rest]
+      \* simulation: every function has its own budget
+      [] h.s \in {"FUNSTART", "FUNEND"} -> [st EXCEPT !.out = Append(@, Tok("", IF h.s = "FUNSTART" THEN "funstart" ELSE "funend", "")), !.todo = rest, !.cur = h.n,
+                                                      !.bud = IF Sim /\ h.s = "FUNSTART" THEN Budget ELSE @]
+      [] h.s = "FUNNAME" -> [st EXCEPT !.out = Append(@, Tok("g" \o ToString(h.n), "fun", SigText(st.sigs, h.n))), !.todo = rest]
+      [] h.s = "PARAM" -> LET name == PName(h.n \div 10, h.n % 10) IN
+                          [st EXCEPT !.out = Append(@, Tok(name, "binder", h.x)), !.env = Append(@, [m |-> FALSE, b |-> {<<name, h.x>>}]), !.todo = rest]
+      [] h.s = "GROUP" -> [st EXCEPT !.todo = <<T("{"), EX(h.x), T("}")>> \o rest]
+      [] h.s = "MARK" -> [st EXCEPT !.env = Append(@, Mark), !.todo = rest]
+      [] h.s = "POPMARK" -> [st EXCEPT !.env = PopToMark(@), !.todo = rest]
+      [] h.s = "BIND" ->
+           \* binders are collected in a pending frame on top of the stack (not visible until COMMIT)
+           LET name == "v" \o ToString(st.nv + 1)  e == st.env IN
+           [st EXCEPT !.out = Append(@, Tok(name, "binder", h.x)), !.nv = @ + 1, !.todo = rest,
+                      !.env = IF e # <<>> /\ e[Len(e)].m = FALSE /\ <<"pending", "">> \in e[Len(e)].b
+                              THEN [e EXCEPT ![Len(e)] = [m |-> FALSE, b |-> e[Len(e)].b \cup {<<name, h.x>>}]]
+                              ELSE Append(e, [m |-> FALSE, b |-> {<<"pending", "">>, <<name, h.x>>}])]
+      [] h.s = "COMMIT" ->
+           LET e == st.env IN
+           [st EXCEPT !.todo = rest,
+                      !.env = IF e # <<>> /\ <<"pending", "">> \in e[Len(e)].b
+                              THEN [e EXCEPT ![Len(e)] = [m |-> FALSE, b |-> e[Len(e)].b \ {<<"pending", "">>}]]
+                              ELSE e]
+RECURSIVE Run(_)
+Run(st) == IF st.todo = <<>> \/ st.todo[1].s \in Choice THEN st ELSE Run(Det(st))
+Conf(td, ss, bud) == [todo |-> td, out |-> out, env |-> env, nv |-> nv, cur |-> cur, sigs |-> ss, bud |-> bud]
+Become(st) == todo' = st.todo /\ out' = st.out /\ env' = st.env /\ nv' = st.nv /\ cur' = st.cur /\ budget' = st.bud
+
+Init == /\ todo = <<>> /\ out = <<>> /\ env = <<>> /\ budget = Budget /\ sigs = <<>> /\ nv = 0 /\ phase = "header" /\ cur = 0 /\ round = 0 /\ fw = {}
+
+-----------------------------------------------------------------------------
+\* Signatures first.
 ParamTypes == D0 \cup {L("Int"), Tu("Int", "String"), Bx("Int"), R("Int", "String")}
-BfsRets    == D0 \cup {L("Int"), Tu("Int", "String"), R("Int", "String"), Bx("Int"), F1("Int", "Int")}
-Header == /\ phase = "header"
-          /\ IF Sim
-             THEN \E n \in Pick(0..2) : \E ps \in Pick([1..n -> ParamTypes]) : \E pin \in Pick(BOOLEAN) : \E r \in Pick(D1) :
-                    /\ sigs' = Append(sigs, [ps |-> ps, pin |-> (pin /\ n >= 1 /\ ps[1] \in PinTypes), ret |-> r])
-                    /\ IF Len(sigs) + 1 = NFuns
-                       THEN todo' = [k \in 1..NFuns |-> Sym("FUN", "", k)] /\ phase' = "body"
-                       ELSE UNCHANGED <<todo, phase>>
-             ELSE \/ \E r \in BfsRets :
-                       /\ sigs' = <<[ps |-> <<>>, pin |-> FALSE, ret |-> r]>>
-                       /\ todo' = <<Sym("FUN", "", 1)>> /\ phase' = "body"
+BfsRets    == D0 \cup {L("Int"), Tu("Int", "String"), R("Int", "String"), Bx("Int"), F1("Int", "Int"), F1("Float", "Int"), F1("Bool", "Int")}
+Ann(t)  == [t |-> t, kd |-> Kd("ann", NoPin)]
+Free(i) == [t |-> "u" \o ToString(i), kd |-> Kd("free", NoPin)]
+Pinned(t, pin) == [t |-> t, kd |-> Kd("pin", pin)]
+\* simulation: the kind of parameter i by a class drawn from 1..9
+KindSet(cl, i) == IF cl <= 3 THEN {Ann(t) : t \in ParamTypes} ELSE IF cl <= 5 THEN {Ann(t) : t \in AV} ELSE IF cl <= 7 THEN {Free(i)}
+                  ELSE UNION {{Pinned(t, pin) : pin \in Pick(Pins(t))} : t \in Pick(PinTypes)}
+\* result types of a generic function over its variables vs
+GenRets(vs) == UNION {{v, L(v), Bx(v)} \cup {Tu(v, w) : w \in vs} \cup {R(v, w) : w \in vs}
+                      \cup UNION {{Tu(v, m), Tu(m, v), R(v, m), R(m, v)} : m \in Pick(D0)} : v \in vs}
+MkSig(ks, nl, r, ra) == Sig([i \in 1..Len(ks) |-> ks[i].t], [i \in 1..Len(ks) |-> ks[i].kd], nl, r, ra /\ CanAnnotate(r))
+\* exhaustive "sigs": every parameter list over a kind alphabet (an atomic and a composite annotation, both annotation
+\* variables, a free and a pinned parameter), every result that is a variable, a pair of two variables, or a list
+SweepKinds(i) == {Ann("Int"), Ann(L("Int")), Ann("a"), Ann("b"), Free(i), Pinned("Int", <<"+", "l">>)}
+SweepRets(vs) == IF vs = {} THEN {"Int"} ELSE vs \cup {Tu(p[1], p[2]) : p \in {q \in vs \X vs : q[1] # q[2]}} \cup {L(CHOOSE v \in vs : TRUE)}
+\* exhaustive "sigs", labels: parameter lists over {Int, String, a} with the last nl labelled
+LabelKinds == {Ann("Int"), Ann("String"), Ann("a")}
+\* exhaustive "rules" inside a generic function
+GenBodySigs == {MkSig(<<Ann("a"), Free(2)>>, 0, r, TRUE) : r \in {"a", "u2", Tu("a", "u2"), L("u2")}}
+CallerSig == Sig(<<>>, <<>>, 0, "Nil", FALSE)
+
+Header ==
+  /\ phase = "header" /\ UNCHANGED <<round, fw>>
+  /\ IF Sim
+     THEN \E n \in Pick(0..4) : \E c1 \in Pick(1..9), c2 \in Pick(1..9), c3 \in Pick(1..9), c4 \in Pick(1..9) :
+          \E k1 \in Pick(KindSet(c1, 1)), k2 \in Pick(KindSet(c2, 2)), k3 \in Pick(KindSet(c3, 3)), k4 \in Pick(KindSet(c4, 4)) :
+          \E nl \in Pick(0..n) : \E rc \in Pick(1..3) : \E ra \in Pick(BOOLEAN) :
+            LET ks == SubSeq(<<k1, k2, k3, k4>>, 1, n)
+                vs == {ks[i].t : i \in 1..n} \cap GV
+            IN \E r \in Pick(IF vs = {} \/ rc = 1 THEN D1 ELSE GenRets(vs)) :
+                 /\ sigs' = Append(sigs, MkSig(ks, nl, r, IF r \in D0 THEN FALSE ELSE IF r \in D1 THEN TRUE ELSE ra))
+                 /\ IF Len(sigs) + 1 = NFuns
+                    THEN Become(Run(Conf([k \in 1..NFuns |-> Sym("FUN", "", k)], sigs', Budget))) /\ phase' = "body"
+                    ELSE UNCHANGED <<todo, out, env, nv, cur, phase, budget>>
+     ELSE /\ phase' = "body"
+          /\ IF Mode = "rules"
+             THEN \* one parameterless function per result type: every rule once
+                  \/ \E r \in BfsRets :
+                       /\ sigs' = <<Sig(<<>>, <<>>, 0, r, r \notin D0)>>
+                       /\ Become(Run(Conf(<<Sym("FUN", "", 1)>>, sigs', Budget)))
                   \* exhaustive over patterns: one function per scrutinee type, `case p { PAT -> 1 _ -> 1 }`
                   \/ \E ty \in D1 \ Funs :
-                       /\ sigs' = <<[ps |-> <<ty>>, pin |-> FALSE, ret |-> "Int"]>>
-                       /\ todo' = <<Sym("FUNSTART", "", 1), T("fn"), Sym("FUNNAME", "", 1), T("("), Sym("MARK", "", 0), Sym("PARAM", ty, 1), T(":"), TY(ty), T(")"), T("{"),
-                                    T("case"), T("p1a"), T("{"), Sym("MARK", "", 0), PA(ty), Sym("COMMIT", "", 0), T("->"), T("1"), Sym("POPMARK", "", 0),
-                                    T("_"), T("->"), T("1"), T("}"), T("}"), Sym("POPMARK", "", 0), Sym("FUNEND", "", 1)>>
-                       /\ phase' = "body"
-          /\ UNCHANGED <<out, env, budget, nv, cur>>
+                       /\ sigs' = <<Sig(<<ty>>, <<Kd("ann", NoPin)>>, 0, "Int", FALSE)>>
+                       /\ Become(Run(Conf(<<Sym("FUNSTART", "", 1), T("fn"), Sym("FUNNAME", "", 1), T("("), MARK, Sym("PARAM", ty, 11), T(":"), TY(ty), T(")"), T("{"),
+                                    T("case"), T("p1a"), T("{"), MARK, PA(ty), COMMIT, T("->"), T("1"), POPMARK,
+                                    T("_"), T("->"), T("1"), T("}"), T("}"), POPMARK, Sym("FUNEND", "", 1)>>, sigs', Budget)))
+                  \* every operator as the pin of a parameter, on either side: fn g1(p) { let _ = p op lit  1 }
+                  \/ \E t \in PinTypes : \E pin \in Pins(t) :
+                       /\ sigs' = <<MkSig(<<Pinned(t, pin)>>, 0, "Int", FALSE)>>
+                       /\ Become(Run(Conf(<<Sym("FUN", "", 1)>>, sigs', 0)))
+                  \* every rule once inside a generic function
+                  \/ \E sg \in GenBodySigs :
+                       /\ sigs' = <<sg>>
+                       /\ Become(Run(Conf(<<Sym("FUN", "", 1)>>, sigs', Budget)))
+             ELSE \* every signature once, with a caller that instantiates it twice
+                  \/ \E n \in 0..MaxParams : \E ks \in [1..n -> UNION {SweepKinds(i) : i \in 1..4}] :
+                       /\ \A i \in 1..n : ks[i] \in SweepKinds(i)
+                       /\ \E r \in SweepRets({ks[i].t : i \in 1..n} \cap GV) :
+                            /\ sigs' = <<MkSig(ks, 0, r, TRUE), CallerSig>>
+                            /\ Become(Run(Conf(<<Sym("FUN", "", 1), Sym("CALLER", "", 2)>>, sigs', Budget)))
+                  \* labelled parameters, called with the labels in every order
+                  \/ \E n \in 1..3 : \E ks \in [1..n -> LabelKinds] : \E nl \in 1..n :
+                       \E r \in (IF \E i \in 1..n : ks[i].t = "a" THEN {"a"} ELSE {"Int"}) :
+                            /\ sigs' = <<MkSig(ks, nl, r, TRUE), CallerSig>>
+                            /\ Become(Run(Conf(<<Sym("FUN", "", 1), Sym("CALLER", "", 2)>>, sigs', Budget)))
 
-Tok(t, r, ty) == [t |-> t, r |-> r, ty |-> ty]
-
-PinStmt(ty, v) == CASE ty = "Int" -> <<T("let"), T("_"), T("="), T(v), T("+"), T("1")>>
-                    [] ty = "Float" -> <<T("let"), T("_"), T("="), T(v), T("+."), T("1.5")>>
-                    [] ty = "String" -> <<T("let"), T("_"), T("="), T(v), T("<>"), T("\"s\"")>>
-
+\* what the head of todo may become: a variable of the goal type in scope (committed frames only), or a production
+Options(h) ==
+    LET visible == {n \in VarsOf(h.x) : \A i \in 1..Len(env) : ~(<<"pending", "">> \in env[i].b /\ \E e \in env[i].b : e[1] = n)}
+    IN {p \in Prods(h) : p.c <= budget /\ p.p \notin Masked /\ (p.c = 0 \/ Focus = {} \/ p.p \in Focus)}
+       \cup (IF h.s \in {"EXPR", "EXPRP"} THEN {P(0, "var", <<T(n)>>) : n \in visible} ELSE {})
 Step ==
   /\ phase = "body" /\ todo # <<>>
-  /\ LET h == todo[1]  rest == Tail(todo) IN
-     CASE h.s = "T" -> /\ out' = Append(out, Tok(h.x, "tok", "")) /\ todo' = rest /\ UNCHANGED <<env, budget, nv, cur>>
-       [] h.s = "CALLOPEN" -> /\ out' = Append(out, Tok("(", "callopen", h.x)) /\ todo' = rest /\ UNCHANGED <<env, budget, nv, cur>>
-       [] h.s = "ARGSEP" -> /\ out' = Append(out, Tok(",", "argsep" \o ToString(h.n), h.x)) /\ todo' = rest /\ UNCHANGED <<env, budget, nv, cur>>
-       [] h.s = "TY" -> /\ out' = Append(out, Tok(h.x, "type", "")) /\ todo' = rest /\ UNCHANGED <<env, budget, nv, cur>>
-       [] h.s = "FUN" ->
-            \* fn gk(p1: s1, p2: s2) { body }  - the first parameter unannotated but pinned by a use when sigs[k].pin
-            LET k == h.n  sg == sigs[k]
-                p1 == "p" \o ToString(k) \o "a"  p2 == "p" \o ToString(k) \o "b"
-                params == IF Len(sg.ps) = 0 THEN <<>>
-                          ELSE (IF sg.pin THEN <<Sym("PARAM", sg.ps[1], k)>> ELSE <<Sym("PARAM", sg.ps[1], k), T(":"), TY(sg.ps[1])>>)
-                               \o (IF Len(sg.ps) = 2 THEN <<T(","), Sym("PARAM2", sg.ps[2], k), T(":"), TY(sg.ps[2])>> ELSE <<>>)
-                pin == IF sg.pin THEN PinStmt(sg.ps[1], p1) ELSE <<>>
-                retann == IF sg.ret \in D0 THEN <<>> ELSE <<T("->"), TY(sg.ret)>>
-                bodyx == IF sg.ret \in D0 THEN Sym("EXPRP", sg.ret, 0) ELSE EX(sg.ret)
-            IN /\ todo' = <<Sym("FUNSTART", "", k), T("fn"), Sym("FUNNAME", "", k), T("("), Sym("MARK", "", 0)>> \o params \o <<T(")")>> \o retann \o <<T("{")>> \o pin
-                          \o <<bodyx, T("}"), Sym("POPMARK", "", 0), Sym("FUNEND", "", k)>> \o rest
-               /\ UNCHANGED <<out, env, budget, nv, cur>>
-       [] h.s \in {"FUNSTART", "FUNEND"} -> /\ out' = Append(out, Tok("", IF h.s = "FUNSTART" THEN "funstart" ELSE "funend", "")) /\ todo' = rest
-                                             /\ cur' = h.n /\ UNCHANGED <<env, budget, nv>>
-       [] h.s = "FUNNAME" -> /\ out' = Append(out, Tok("g" \o ToString(h.n), "fun", SigText(h.n))) /\ todo' = rest /\ UNCHANGED <<env, budget, nv, cur>>
-       [] h.s \in {"PARAM", "PARAM2"} ->
-            LET name == "p" \o ToString(h.n) \o (IF h.s = "PARAM" THEN "a" ELSE "b") IN
-            /\ out' = Append(out, Tok(name, "binder", h.x))
-            /\ env' = Append(env, [m |-> FALSE, b |-> {<<name, h.x>>}])
-            /\ todo' = rest /\ UNCHANGED <<budget, nv, cur>>
-       [] h.s = "PINLAST" -> /\ todo' = PinStmt(h.x, "v" \o ToString(nv)) \o rest /\ UNCHANGED <<out, env, budget, nv, cur>>
-       [] h.s = "GROUP" -> /\ todo' = <<T("{"), EX(h.x), T("}")>> \o rest /\ UNCHANGED <<out, env, budget, nv, cur>>
-       [] h.s = "MARK" -> /\ env' = Append(env, Mark) /\ todo' = rest /\ UNCHANGED <<out, budget, nv, cur>>
-       [] h.s = "POPMARK" -> /\ env' = PopToMark(env) /\ todo' = rest /\ UNCHANGED <<out, budget, nv, cur>>
-       [] h.s = "BIND" ->
-            \* binders are collected in a pending frame on top of the stack (not visible until COMMIT)
-            LET name == "v" \o ToString(nv + 1) IN
-            /\ out' = Append(out, Tok(name, "binder", h.x))
-            /\ env' = IF env # <<>> /\ env[Len(env)].m = FALSE /\ <<"pending", "">> \in env[Len(env)].b
-                      THEN [env EXCEPT ![Len(env)] = [m |-> FALSE, b |-> env[Len(env)].b \cup {<<name, h.x>>}]]
-                      ELSE Append(env, [m |-> FALSE, b |-> {<<"pending", "">>, <<name, h.x>>}])
-            /\ nv' = nv + 1 /\ todo' = rest /\ UNCHANGED <<budget, cur>>
-       [] h.s = "COMMIT" ->
-            /\ env' = IF env # <<>> /\ <<"pending", "">> \in env[Len(env)].b
-                      THEN [env EXCEPT ![Len(env)] = [m |-> FALSE, b |-> env[Len(env)].b \ {<<"pending", "">>}]]
-                      ELSE env
-            /\ todo' = rest /\ UNCHANGED <<out, budget, nv, cur>>
-       [] OTHER ->
-            \* a variable of the goal type in scope (committed frames only), or a production
-            LET visible == IF h.s \in {"EXPR"} THEN {n \in VarsOf(h.x) : \A i \in 1..Len(env) : ~(<<"pending", "">> \in env[i].b /\ \E e \in env[i].b : e[1] = n)} ELSE {}
-                prods == {p \in Prods(h) : p.c <= budget /\ p.p \notin Masked}
-                          \cup {P(0, "var", <<T(n)>>) : n \in visible}
-            IN \E p \in Pick(prods) :
-                  /\ todo' = p.r \o rest /\ budget' = budget - p.c /\ UNCHANGED <<out, env, nv, cur>>
-  /\ UNCHANGED <<sigs, phase>>
+  /\ LET rest == Tail(todo)
+     IN \E p \in Pick(Options(todo[1])) :
+          /\ Become(Run(Conf(p.r \o rest, sigs, budget - p.c)))
+          /\ fw' = IF p.k > cur \/ p.k \in fw THEN fw \cup {cur} ELSE fw
+  /\ UNCHANGED <<sigs, phase, round>>
 
 Done == phase = "body" /\ todo = <<>>
-Program == [sigs |-> sigs, out |-> out]
+Program == [sigs |-> [k \in 1..Len(sigs) |-> SigText(sigs, k)], out |-> out]
 Finish == /\ Sim /\ Done
           /\ PrintT(<<"CASE", ToJson(Program)>>)
-          /\ todo' = <<>> /\ out' = <<>> /\ env' = <<>> /\ budget' = Budget /\ sigs' = <<>> /\ nv' = 0 /\ phase' = "header" /\ cur' = 0
+          /\ todo' = <<>> /\ out' = <<>> /\ env' = <<>> /\ budget' = Budget /\ sigs' = <<>> /\ nv' = 0 /\ cur' = 0
+          /\ fw' = {} /\ round' = round + 1 /\ phase' = IF round + 1 < Rounds THEN "header" ELSE "end"
 Next == Header \/ Step \/ Finish
 Spec == Init /\ [][Next]_vars
 
 -----------------------------------------------------------------------------
 \* the environment is empty again when a program is finished; every binder has a type of the universe
 Closed == Done => env = <<>>
-BindersTyped == \A i \in 1..Len(out) : out[i].r = "binder" => out[i].ty \in D1
+BindersTyped == \A i \in 1..Len(out) : out[i].r = "binder" => out[i].ty \in D1G
+\* signatures: the result mentions only variables of the parameters, a variable without a name is never written in an
+\* annotation, a pin fixes a type it can fix, labelled parameters come last
+SigsWellFormed == \A k \in 1..Len(sigs) : LET sg == sigs[k] IN
+                    /\ TyVars(sg.ret) \subseteq SigVars(sg) /\ (sg.rann => CanAnnotate(sg.ret)) /\ sg.nl <= Len(sg.ps)
+                    /\ \A i \in 1..Len(sg.ps) : /\ sg.ps[i] \in D1G
+                                                /\ (sg.kd[i].k = "ann" => CanAnnotate(sg.ps[i]))
+                                                /\ (sg.kd[i].k = "free" => sg.ps[i] \in UV /\ \A j \in 1..Len(sg.ps) : j # i => sg.ps[j] # sg.ps[i])
+                                                /\ (sg.kd[i].k = "pin" => sg.kd[i].pin \in PinsFor(sg.ps[i]))
+\* a binder of the function being generated mentions only that function's variables
+BindersScoped == LET starts == {i \in 1..Len(out) : out[i].r = "funstart"}
+                     last == IF starts = {} THEN 0 ELSE CHOOSE i \in starts : \A j \in starts : j <= i
+                 IN ~Done => \A i \in (last + 1)..Len(out) : out[i].r = "binder" => TyVars(out[i].ty) \subseteq SigVars(sigs[cur])
+\* every goal can be derived within any remaining budget (no behaviour gets stuck in the middle of a program)
+Derivable == (phase = "body" /\ todo # <<>>) => \E p \in Prods(todo[1]) \cup {P(0, "var", <<>>) : n \in VarsOf(todo[1].x)} : p.c = 0 /\ p.p \notin Masked
+\* no generic function reaches a later function
+GenericsAcyclic == \A k \in fw : ~Generic(k)
 EmitCase == (~Sim /\ Done) => PrintT(<<"CASE", ToJson(Program)>>)
 =============================================================================
